@@ -21,6 +21,7 @@ import (
 	"github.com/gopcua/opcua/debug"
 	"github.com/gopcua/opcua/errors"
 	"github.com/gopcua/opcua/id"
+	"github.com/gopcua/opcua/simhook"
 	"github.com/gopcua/opcua/stats"
 	"github.com/gopcua/opcua/ua"
 	"github.com/gopcua/opcua/uacp"
@@ -372,6 +373,7 @@ func (c *Client) monitor(ctx context.Context) {
 				action = createSecureChannel
 			}
 
+			simhook.Yield("client.monitor.beforePause")
 			c.pauseSubscriptions(ctx)
 
 			var (
@@ -594,6 +596,7 @@ func (c *Client) monitor(ctx context.Context) {
 
 			// clear sechan errors from reconnection
 			for len(c.sechanErr) > 0 {
+				simhook.Yield("client.monitor.drainError")
 				<-c.sechanErr
 			}
 
@@ -645,6 +648,7 @@ func (c *Client) Close(ctx context.Context) error {
 	// try to close the session but ignore any error
 	// so that we close the underlying channel and connection.
 	c.CloseSession(ctx)
+	simhook.Yield("client.Close.afterCloseSession")
 	c.setState(ctx, Closed)
 
 	if c.mcancel != nil {
